@@ -305,6 +305,10 @@ func (k *checker) checkGeom(g *geomCase) {
 		fail("reads-beyond-input", fmt.Sprintf("%s: with 64 spare bytes of 0xAA behind the slice Go returns %s", desc, g2))
 		return
 	}
+	if g3 := goDecodeInto(g.Kind, cs.Width, exact(stream), true); g3 != gd {
+		fail("dst-history-dependence", fmt.Sprintf("%s: into reused destinations holding older data Go returns %s", desc, g3))
+		return
+	}
 	// a destination that holds values already and garbage in its spare capacity
 	if g.Kind == "dbp32" || g.Kind == "dbp64" {
 		if p := safely(func() {
@@ -493,9 +497,13 @@ func runGeometry(c *core.Ctx) {
 				}
 				if kind == "dba_flba" {
 					cs.Width = pick([]int{1, 4, 16, 5})
-					cs.Strs = genStrs(rng, n, pick([]int{0, 3, 2}), cs.Width)
+					sk := pick([]int{0, 3, 4, 2})
+					if sk == 4 { // long values sharing long prefixes
+						cs.Width = pick([]int{70, 33, 133})
+					}
+					cs.Strs = genStrs(rng, n, sk, cs.Width)
 				} else {
-					cs.Strs = genStrs(rng, n, pick([]int{0, 1, 3, 2}), 0)
+					cs.Strs = genStrs(rng, n, pick([]int{0, 1, 4, 3, 2}), 0)
 				}
 				runGeomCase(c, cs)
 			}
